@@ -8,9 +8,10 @@
    (C23/C24), list membership (C31) and answer construction (C16-C19) are inputs of this model.
    [o_out r] is what is sent: nothing, a time answer, a DENY kiss, or an NTS NAK.
 
-   The model is of the REPAIRED handler (branch fix-c15-nonclient-nak): a datagram whose NTS field
-   fails to authenticate is only answered when its mode is `client`.  The pinned tree answers such
-   non-client datagrams with a NAK (or DENY); see C15_unanswered. *)
+   The model is of the REPAIRED handler (commit "fix: never answer non-client packets whose NTS field
+   fails to authenticate", prepared as branch fix-c15-nonclient-nak): a datagram whose NTS field fails
+   to authenticate is only answered when its mode is `client`.  Before that commit such non-client
+   datagrams were answered with a NAK (or DENY); see C15_unanswered. *)
 From V Require Import Model.RateCache Model.Server Proofs.RateCache Proofs.Server.
 
 (* The deny list is tested first: for a client on the deny list the outcome does not depend on the
